@@ -278,6 +278,31 @@ def _stale_state(b):
                                           lambda p: [p.remove(next(iter(p.iter_all(sc.TimeSignature)))), p.add(sc.TimeSignature(4, 4), 0)],
                                           lambda: base((4, 4), [(0, 4), (4, 20), (20, 36)])),
     }
+    # a tie chain read (its total length), then edited behind its first note: the end of the continuation moved, a third note tied on
+    def tied(second_end=48, third=None):
+        p = base((4, 4), [(0, 4), (4, 20), (20, 36), (36, 52), (52, 68)])
+        e_, f_ = sc.Note(step="B", octave=4, id="e", voice=1, staff=1), sc.Note(step="B", octave=4, id="f", voice=1, staff=1)
+        p.add(e_, 36, 44)
+        p.add(f_, 44, second_end)
+        e_.tie_next, f_.tie_prev = f_, e_
+        if third:
+            g_ = sc.Note(step="B", octave=4, id="g", voice=1, staff=1)
+            p.add(g_, second_end, third)
+            f_.tie_next, g_.tie_prev = g_, f_
+        return p
+
+    def move_end(p):
+        f_ = [n for n in p.iter_all(sc.Note) if n.id == "f"][0]
+        p.remove(f_, "end")
+        p.add(f_, None, 52)
+
+    def tie_on(p):
+        f_ = [n for n in p.iter_all(sc.Note) if n.id == "f"][0]
+        g_ = sc.Note(step="B", octave=4, id="g", voice=1, staff=1)
+        p.add(g_, 48, 60)
+        f_.tie_next, g_.tie_prev = g_, f_
+    edits["end_of_a_tied_continuation_moved"] = (lambda: tied(), move_end, lambda: tied(52))
+    edits["a_third_note_tied_onto_a_chain"] = (lambda: tied(), tie_on, lambda: tied(48, 60))
     for name, (mk0, edit, mk1) in edits.items():
         for read in ("note_array", "save_score_midi", "quarter_map"):
             for ana in ("shift", "pad_bar", "time_sig_change"):
